@@ -15,24 +15,30 @@ INTERIOR_MUT = ("Cell<", "RefCell<", "Mutex<", "RwLock<", "Atomic", "UnsafeCell<
 # --------------------------------------------------------------------------- #
 # C03 — Kaufman column
 # --------------------------------------------------------------------------- #
-def jacobian_closure_env(F, ev, b):
-    """(closure body, env with captures resolved in the parent and symbolic (k, col))"""
+def jacobian_column_write(F, ev, b):
+    """the (form-independent) write of one Jacobian column: returns
+    (allocation term M, column index term k, value term, effect, all effects) or raises AnchorMissing"""
+    import effects as fx
     env = Env(b)
-    cl = closure_terms_in(ev, env)
-    out = []
-    for ck, ct in cl.items():
-        cb = F.bodies[ck]
-        # closure taking one tuple argument (index, column)
-        if cb.arg_count != 2:
-            continue
-        if not any(is_model_call(t, "eval_partial_deriv") for _, t in cb.calls()):
-            continue
-        cenv = Env(cb, {1: ct, 2: ("tuple", (("sym", "k"), ("sym", "col")))}, 1)
-        out.append((cb, cenv, ct))
-    return out, env
+    effs = list(fx.iteration_effects(ev, env))
+    # the matrix that is returned
+    ev.fresh_ctx()
+    rv = ev.ret_val(env)
+    alts = rv[1] if rv[0] == "phi" else (rv,)
+    rets = []
+    for a in alts:
+        if a[0] == "opt":
+            from rules_stats2 import base_alloc
+            rets.append(base_alloc(a[1]))
+    cw = [w for w in fx.column_writes(effs) if not rets or w[0] in rets]
+    if len(cw) != 1:
+        raise AnchorMissing("expected exactly one full write of a column of the returned Jacobian per iteration, found %d" % len(cw))
+    M, k, val, e = cw[0]
+    return M, k, val, e, effs
 
 
 def rule_kaufman_col(F, ev, R, config, rule="R-KAUFMAN-COL"):
+    import effects as fx
     roles = problem_roles(F)
     cuse = resolve_cache_roles_by_use(F, ev)
     for self_ty, ms in sorted(lsp_impls(F).items()):
@@ -41,83 +47,68 @@ def rule_kaufman_col(F, ev, R, config, rule="R-KAUFMAN-COL"):
         if b is None:
             R.bad(rule, config, self_ty, "anchor-missing", "no jacobian()")
             continue
-        closures, env = jacobian_closure_env(F, ev, b)
-        if len(closures) != 1:
-            R.bad(rule, config, b.key, "column-closure@" + fl,
-                  "expected exactly one per-column closure evaluating a partial derivative, found %d (undetermined)" % len(closures), b.j["span"])
+        try:
+            M, k, val, e, effs = jacobian_column_write(F, ev, b)
+        except AnchorMissing as ex:
+            R.bad(rule, config, b.key, "column-write@" + fl, "%s (undetermined)" % ex, b.j["span"])
             continue
-        cb, cenv, ct = closures[0]
-        # --- the closure is driven by enumerate() over the columns of the result matrix
+        # --- index k ↔ column k: k is the enumerate index of the column iteration, or the loop variable of column_mut(k)
         drv_ok = False
-        alloc = None
-        for bi, t in b.calls():
-            if "fn" in t and t["fn"]["name"] == "map":
-                v = ev.call_val(env, bi)
-                it = v[3][0] if v[0] == "call" else None
-                if it and it[0] == "call" and it[1].endswith("::enumerate"):
-                    src = it[3][0]
-                    if src[0] == "call" and src[1].rsplit("::", 1)[-1] in ("column_iter_mut", "par_column_iter_mut"):
-                        alloc = strip_mut(src[3][0])[0]
-                        drv_ok = v[3][1][0] == "closure" and v[3][1][1] == cb.key
+        if k is not None and k[0] == "field" and k[2] == "0" and k[1][0] == "elem":
+            it = fx.base_iter(k[1][1])
+            drv_ok = it[0] == "call" and it[1].rsplit("::", 1)[-1] == "enumerate"
+        elif k is not None and k[0] == "elem":
+            it = fx.base_iter(k[1])
+            if it[0] == "agg" and it[1].endswith("ops::Range") and dict(it[3]).get("start") == ("const", "usize", 0):
+                drv_ok = True
         R.add(rule, config, b.key, "columns-enumerated@" + fl, drv_ok,
-              "" if drv_ok else "the per-column closure is not driven by enumerate() over the columns of the Jacobian (index k ↔ column k)", b.j["span"])
+              "" if drv_ok else "the column written is not indexed by the enumeration index of the Jacobian's columns (index k ↔ column k): k = %s" % (short(k)[:100] if k else None), b.j["span"])
         # --- allocation (|S|·|R|) × |P|
-        if alloc is not None:
-            a = alloc
-            while a[0] == "call" and a[1].endswith("assume_init"):
-                a = a[3][0]
-            okalloc = False
-            if a[0] == "call" and len(a[3]) >= 2:
-                r, c = a[3][0], a[3][1]
-                rd = r[3][0][1] if r[0] == "agg" and r[3] else r
-                cd = c[3][0][1] if c[0] == "agg" and c[3] else c
-                rows_ok = (rd[0] == "bin" and rd[1] == "Mul" and
-                           any(is_call(x, TRAIT_MODEL + "::output_len") for x in (rd[2], rd[3])) and
-                           any(is_call(x, "Matrix::ncols") and self_field(x[3][0], b.key, roles["data"]) for x in (rd[2], rd[3])))
-                cols_ok = is_call(cd, TRAIT_MODEL + "::parameter_count")
-                okalloc = rows_ok and cols_ok
-            R.add(rule, config, b.key, "allocation=(S·R)×P@" + fl, okalloc,
-                  "" if okalloc else "Jacobian allocated as `%s`, expected (output_len·ncols(Y_w)) × parameter_count" % short(a)[:200], b.j["span"])
+        a = M
+        while a[0] == "call" and a[1].endswith("assume_init"):
+            a = a[3][0]
+        okalloc = False
+        if a[0] == "call" and len(a[3]) >= 2:
+            from rules_stats2 import dimval
+            rd, cd = dimval(a[3][0]), dimval(a[3][1])
+            rows_ok = (rd[0] == "bin" and rd[1] == "Mul" and
+                       any(is_call(x, TRAIT_MODEL + "::output_len") for x in (rd[2], rd[3])) and
+                       any(is_call(x, "Matrix::ncols") and self_field(x[3][0], b.key, roles["data"]) for x in (rd[2], rd[3])))
+            cols_ok = is_call(cd, TRAIT_MODEL + "::parameter_count")
+            okalloc = rows_ok and cols_ok
+        R.add(rule, config, b.key, "allocation=(S·R)×P@" + fl, okalloc,
+              "" if okalloc else "Jacobian allocated as `%s`, expected (output_len·ncols(Y_w)) × parameter_count" % short(a)[:200], b.j["span"])
         # --- the column value
-        writes = []
-        for cid, head, args, t, body, bi in effect_calls(ev, cenv):
-            m = cid.rsplit("::", 1)[-1]
-            if m in FULL_COLUMN_WRITES and args and args[0] == ("sym", "col"):
-                writes.append((cid, args, t))
-        if len(writes) != 1:
-            R.bad(rule, config, cb.key, "column-write@" + fl,
-                  "expected exactly one full write of the bound Jacobian column per closure call, found %d (undetermined)" % len(writes), cb.j["span"])
-            continue
-        cid, args, t = writes[0]
-        val = args[1]
-        M = flatten_arg(val)
-        okflat = M is not None
-        R.add(rule, config, cb.key, "column=vec(matrix)@" + fl, okflat,
+        fn_key = e.body.key
+        t = e.term
+        Mx = flatten_arg(val)
+        okflat = Mx is not None
+        R.add(rule, config, fn_key, "column=vec(matrix)@" + fl, okflat,
               "" if okflat else "column value is not the column-major flattening shared with the residuals: %s" % short(val)[:160], t.get("span"))
-        if M is None:
+        if Mx is None:
             continue
         N = nfmod.NF()
-        n = N.nf(M)
-        # expected: +U·Uᵀ·X − X  with X = W·D_k·C
-        U = ("payload", ("field", ("field", ("payload", ("field", ("param", b.key, 1), roles["cache"]), "ok", "0"), cuse["svd"]), "u"), "ok", "0")
-        W = ("W", ("field", ("param", b.key, 1), roles["weights"]))
-        C = ("field", ("payload", ("field", ("param", b.key, 1), roles["cache"]), "ok", "0"), cuse["coeff"])
-        dks = [x for x in walk(M) if x[0] == "call" and x[1] == TRAIT_MODEL + "::eval_partial_deriv"]
+        n = N.nf(Mx)
+        me = ("param", b.key, 1)
+        U = ("payload", ("field", ("field", ("payload", ("field", me, roles["cache"]), "ok", "0"), cuse["svd"]), "u"), "ok", "0")
+        W = ("W", ("field", me, roles["weights"]))
+        C = ("field", ("payload", ("field", me, roles["cache"]), "ok", "0"), cuse["coeff"])
+        dks = [x for x in walk(Mx) if x[0] == "call" and x[1] == TRAIT_MODEL + "::eval_partial_deriv"]
         dk = None
         okk = False
-        if dks and all(d == dks[0] for d in dks):
+        if dks and all(d[3] == dks[0][3] for d in dks):
             d = dks[0]
-            okk = d[3][1] == ("sym", "k") and self_field(d[3][0], b.key, roles["model"])
+            okk = fx.norm_elems(d[3][1]) == k and d[3][0] == ("field", me, roles["model"])
             dk = ("payload", d, "ok", "0")
-        R.add(rule, config, cb.key, "derivative-index=column-index@" + fl, okk,
+        R.add(rule, config, fn_key, "derivative-index=column-index@" + fl, okk,
               "" if okk else "the partial derivative is taken w.r.t. `%s` of `%s`, expected the column index k of the problem's model" % (
-                  short(dks[0][3][1]) if dks else "?", short(dks[0][3][0]) if dks else "?"), t.get("span"))
+                  short(dks[0][3][1])[:80] if dks else "?", short(dks[0][3][0])[:60] if dks else "?"), t.get("span"))
         if dk is None:
             continue
         X = ((W, False), (dk, False), (C, False))
         exp = {((), X): -1, ((), ((U, False), (U, True)) + X): 1}
         okn = n == exp
-        R.add(rule, config, cb.key, "column=U·Uᵀ·X−X,X=W·Dk·C@" + fl, okn,
+        R.add(rule, config, fn_key, "column=U·Uᵀ·X−X,X=W·Dk·C@" + fl, okn,
               "column normal form %s" % nfmod.show(n, short)[:300] if okn else
               "Jacobian column has normal form  %s  but the Kaufman column is  %s" % (nfmod.show(n, short)[:400], nfmod.show(exp, short)[:300]),
               t.get("span"))
@@ -232,27 +223,26 @@ def rule_row_scaling(F, ev_unused, R, config, rule="R-ROW-SCALING"):
     base, sites = strip_mut(rv)
     ok = base == ("param", d.key, 2) and len(sites) == 1
     R.add(rule, config, d.key, "returns-the-scaled-rhs", ok, "" if ok else "`&DiagMatrix * M` returns `%s`" % short(rv)[:160], d.j["span"])
-    # the only mutation: for every column, component_mul_assign(col, diagonal)
-    cl = closure_terms_in(ev2, env)
+    # the only mutation: for every column, component_mul_assign(col, diagonal) — closure or loop form
+    import effects as fx
     good = 0
     others = []
-    for cid, head, args, t, body, bi in effect_calls(ev2, env):
-        m = cid.rsplit("::", 1)[-1]
-        if m == "for_each" and args[0][0] == "call" and args[0][1].endswith("column_iter_mut") and strip_mut(args[0][3][0])[0] == ("param", d.key, 2):
-            c = args[1]
-            if c[0] == "closure":
-                cb = F.bodies[c[1]]
-                cenv = Env(cb, {1: c, 2: ("sym", "col")}, 1)
-                eff = [(x[0], x[2]) for x in effect_calls(ev2, cenv)]
-                if len(eff) == 1 and eff[0][0].endswith("component_mul_assign") and eff[0][1][0] == ("sym", "col") and \
-                        eff[0][1][1][0] == "field" and eff[0][1][1][1] == ("param", d.key, 1):
-                    good += 1
-                else:
-                    others.append("closure does %s" % [(e[0], [short(a) for a in e[1]]) for e in eff])
-        elif m in ("column_iter_mut", "nrows", "ncols", "size", "len") or cid.startswith("core::panicking") or "assert_failed" in cid or "fmt::" in cid:
+    for e in fx.iteration_effects(ev2, env):
+        if e.kind == "store":
+            others.append("store through %s" % short(e.args[0])[:40])
+            continue
+        m = e.name
+        if m == "component_mul_assign" and len(e.args) == 2:
+            hit = fx.column_of(e.args[0])
+            okd = e.args[1][0] == "field" and strip_mut(e.args[1][1])[0] == ("param", d.key, 1)
+            if hit and hit[0] == ("param", d.key, 2) and okd and fx.covers_all_columns_simple(e.args[0]):
+                good += 1
+            else:
+                others.append("component_mul_assign(%s, %s)" % (short(e.args[0])[:50], short(e.args[1])[:40]))
+        elif m in ("column_iter_mut", "nrows", "ncols", "size", "len", "for_each", "into_iter", "next", "enumerate", "shape") or e.cid.startswith("core::panicking") or "assert_failed" in e.cid or "fmt::" in e.cid:
             continue
         else:
-            others.append(cid)
+            others.append(e.cid)
     ok = good == 1 and not others
     R.add(rule, config, d.key, "every-column-times-diagonal", ok,
           "" if ok else "`&DiagMatrix * M` is not `for each column: component_mul_assign(diagonal)`: %s" % others[:3], d.j["span"])
@@ -308,12 +298,25 @@ def rule_weight_sites(F, ev, R, config, rule="R-WEIGHT-SITES"):
                 msg = "weight multiplication in an unexpected place (undetermined)"
             # applied exactly once: the multiplied matrix carries no weight factor itself
             twice = contains(M, lambda x: x[0] == "call" and x[1] == "std::ops::Mul::mul" and x[2] in (ADT_WEIGHTS, ADT_DIAG))
-            twice = twice or contains(M, lambda x: x[0] == "field" and x[2] == pr["data"] and im.get("self_adt") == ADT_PROBLEM)
+            if im.get("self_adt") == ADT_PROBLEM:
+                # the stored data are already weighted: they must not be weighted again (as the operand
+                # itself or as a factor/summand of it; occurrences inside index or dimension terms do not count)
+                def weighted_operand(x, depth=0):
+                    x0 = x
+                    while x0[0] in ("mutated", "payload", "opt"):
+                        x0 = x0[1]
+                    if x0 == ("field", ("param", root.key, 1), pr["data"]):
+                        return True
+                    if depth < 6 and x0[0] == "call" and x0[1] in ("std::ops::Mul::mul", "std::ops::Sub::sub", "std::ops::Add::add", "std::ops::Neg::neg") or \
+                            (x0[0] == "call" and x0[1].rsplit("::", 1)[-1] in ("transpose", "clone", "column", "rows", "columns")):
+                        return any(weighted_operand(a, depth + 1) for a in x0[3])
+                    return False
+                twice = twice or weighted_operand(M)
             if twice:
                 okw = False
                 msg = "weights applied to an already weighted quantity `%s`" % short(M)[:120]
             R.add(rule, config, b.key, inst, okw, "" if okw else msg, t.get("span"))
-    R.floor(rule, config, 5 if config == "default" else 7, "build 1, set_params 1/2, jacobian 1/2, statistics 2")
+    R.floor(rule, config, 4 if config == "default" else 5, "build 1, basis matrix >= 1, derivative 1/2, statistics 2 (a shared helper may serve both flavours)")
 
 
 # --------------------------------------------------------------------------- #
@@ -480,148 +483,150 @@ def rule_def_init(F, ev, R, config, rule="R-DEF-INIT"):
         R.bad(rule, config, "-", "floor", "only %d of the %d result-matrix allocation sites (SeparableModel::eval, jacobian per flavour) were matched" % (n_alloc, want))
 
 
+def is_col_of(term, alloc):
+    """term denotes a column of `alloc` obtained from a column iteration (form independent)"""
+    import effects as fx
+    hit = fx.column_of(fx.norm_elems(term))
+    return hit is not None and hit[0] == alloc
+
+
+def writes_target_on_all_paths(F, ev, body, env, pred, depth=0):
+    """blocks of `body` whose terminator fully writes a receiver satisfying pred — directly
+    (copy_from / set_column / fill ...) or through a local helper that writes that argument on
+    every path"""
+    out = set()
+    for bi, t in body.calls():
+        if "fn" not in t:
+            continue
+        fn = t["fn"]
+        args = [ev.operand(env, a, (bi, None)) for a in t["args"]]
+        key = fn.get("resolved_key") or fn.get("key")
+        if fn["name"] in FULL_COLUMN_WRITES and args and pred(args[0]):
+            out.add(bi)
+        elif key and key in F.bodies and key not in ev.opaque and depth < 3:
+            hits = [i for i, a in enumerate(args) if pred(a)]
+            if hits:
+                hb = F.bodies[key]
+                sub = Env(hb, {i + 1: x for i, x in enumerate(args)}, depth + 1)
+                hw = writes_target_on_all_paths(F, ev, hb, sub, pred, depth + 1)
+                if hw and hb.must_pass(0, hb.exits(), hw):
+                    out.add(bi)
+    return out
+
+
 def proven_full_overwrite(F, ev, b, bi, t):
+    import effects as fx
+    from rules_stats2 import base_alloc, dimval
     env = Env(b)
-    M = t["dest"]["l"]
     alloc = ev.call_val(env, bi)
     a = alloc
     while a[0] == "call" and a[1].endswith("assume_init"):
         a = a[3][0]
     if not (a[0] == "call" and a[1].endswith("uninit") and len(a[3]) == 2):
         return False, "allocation `%s` not recognised (undetermined)" % short(alloc)[:120]
-    ncols = a[3][1]
-    ncols = ncols[3][0][1] if ncols[0] == "agg" and ncols[3] else ncols
-    # find the column iteration over M
-    col_iters = []
+    ncols = dimval(a[3][1])
+    pred = lambda term: is_col_of(term, alloc)
+    # success sites: the matrix returned inside Some/Ok
+    succ_sites = []
+    for sbi, ssi, s in b.stmts():
+        if s["k"] == "assign" and s["place"]["l"] == 0 and s["rv"]["k"] == "agg" and s["rv"].get("variant") in ("Some", "Ok"):
+            v = ev.rvalue(env, s["rv"], (sbi, ssi))
+            if contains(v, lambda x: x == alloc):
+                succ_sites.append(sbi)
+        if s["k"] == "assign" and s["place"]["l"] == 0 and s["rv"]["k"] == "use":
+            v = ev.rvalue(env, s["rv"], (sbi, ssi))
+            if base_alloc(v) == alloc:
+                succ_sites.append(sbi)
+    # ---------- closure form: <column iteration>.map(closure).collect() ----------
     for cbi, ct in b.calls():
-        if "fn" in ct and ct["fn"]["name"] in ("column_iter_mut", "par_column_iter_mut"):
+        if "fn" in ct and ct["fn"]["name"] in ("map", "for_each", "try_for_each") and "Option" not in ct["fn"]["path"] and "Result" not in ct["fn"]["path"]:
             v = ev.call_val(env, cbi)
-            base, _ = strip_mut(v[3][0])
-            if base == alloc:
-                col_iters.append((cbi, ct))
-    if len(col_iters) != 1:
-        return False, "expected exactly one column iteration over the uninitialised matrix, found %d (undetermined)" % len(col_iters)
-    # --- closure form: cols.enumerate().map(closure).collect::<Result>() ---
-    closures = closure_terms_in(ev, env)
-    for cbi, ct in b.calls():
-        if "fn" in ct and ct["fn"]["name"] == "map" and "Option" not in ct["fn"]["path"]:
-            v = ev.call_val(env, cbi)
-            if v[0] == "call" and v[3][1][0] == "closure":
-                src = v[3][0]
-                if src[0] == "call" and src[1].endswith("::enumerate"):
-                    src = src[3][0]
-                if src[0] == "call" and src[1].rsplit("::", 1)[-1] in ("column_iter_mut", "par_column_iter_mut") and strip_mut(src[3][0])[0] == alloc:
-                    cb = F.bodies[v[3][1][1]]
-                    cenv = Env(cb, {1: v[3][1], 2: ("tuple", (("sym", "k"), ("sym", "col")))}, 1)
-                    ok, msg = closure_writes_col_on_all_ok_paths(F, ev, cb, cenv)
-                    if not ok:
-                        return False, msg
-                    # Some(M) only after the collected Result is Ok: R-JAC-ABSENT (shared); here: the map result is consumed by collect
+            if v[0] == "call" and len(v[3]) >= 2 and v[3][1][0] == "closure":
+                param = ("elem", fx.base_iter(v[3][0]))
+                probe = fx.column_of(fx.norm_elems(("field", param, "1"))) or fx.column_of(fx.norm_elems(param))
+                if not probe or probe[0] != alloc:
+                    continue
+                cb = F.bodies[v[3][1][1]]
+                cenv = Env(cb, {1: v[3][1], 2: param}, 1)
+                wblocks = writes_target_on_all_paths(F, ev, cb, cenv, pred)
+                if not wblocks:
+                    return False, "the per-column closure never writes its column"
+                ok_returns = [x for x, si, s in cb.stmts() if s["k"] == "assign" and s["place"]["l"] == 0 and s["rv"]["k"] == "agg" and s["rv"].get("variant") in ("Ok", "Some")]
+                if not ok_returns:
+                    ok_returns = cb.exits()
+                if not cb.must_pass(0, ok_returns, wblocks):
+                    return False, "a path through the per-column closure reports success without writing the column (uninitialised memory in the result)"
+                if ct["fn"]["name"] == "map":
                     cons = consumers(b, ct["dest"]["l"])
-                    if not any(c["kind"] == "call" and c["cid"].endswith("::collect") for c in cons):
-                        return False, "the per-column map is not driven to completion by collect()"
-                    return True, "closure form (enumerate().map().collect()), full-column write on every Ok path"
-    # --- for-loop form: for (x, col) in coll.iter().zip(M.column_iter_mut()) { ...; col.copy_from(..) } ---
-    loops = b.natural_loops()
-    for h, blocks in loops.items():
+                    if not any(c["kind"] == "call" and c["cid"].rsplit("::", 1)[-1] in ("collect", "for_each", "try_for_each", "count", "sum", "last") for c in cons):
+                        return False, "the per-column map is lazy and never driven to completion"
+                if not covers_all_columns(v[3][0], alloc, ncols, fx):
+                    return False, "the column iteration may end before all columns of the allocation are visited"
+                return True, "closure form, full-column write on every success path of the closure"
+    # ---------- for-loop form ----------
+    for h, blocks in b.natural_loops().items():
         nxt = None
-        for lb in blocks:
+        for lb in sorted(blocks):
             tt = b.blocks[lb]["term"]
             if tt["k"] == "call" and "fn" in tt and callee_id(tt["fn"]) == "std::iter::Iterator::next":
-                nxt = (lb, tt)
+                itv = fx.base_iter(ev.operand(env, tt["args"][0], (lb, None)))
+                if contains(itv, lambda x: x == alloc):
+                    nxt = (lb, tt, itv)
         if nxt is None:
             continue
-        lb, tt = nxt
-        itv = ev.operand(env, tt["args"][0], (lb, None))
-        if not contains(itv, lambda x: x == alloc):
-            continue
-        # the iterator must be zip(iter(coll), column_iter_mut(M)) with len(coll) == ncols
-        z = strip_mut(itv)[0]
-        if z[0] == "phi":
-            zz = [strip_mut(x)[0] for x in z[1] if x[0] != "loopback"]
-            z = zz[0] if zz else z
-        if not (z[0] == "call" and z[1].endswith("::zip") and len(z[3]) == 2):
-            return False, "loop iterator `%s` is not zip(collection, columns) (undetermined)" % short(z)[:160]
-        coll, cols = z[3]
-        if cols[0] == "call" and cols[1].endswith("column_iter_mut"):
-            pass
-        else:
-            coll, cols = cols, coll
-        if not (cols[0] == "call" and cols[1].endswith("column_iter_mut")):
-            return False, "zip does not range over the columns of the matrix"
-        if coll[0] == "call" and coll[1].rsplit("::", 1)[-1] in ("iter", "into_iter"):
-            coll = coll[3][0]
-        # ncols term must be len(coll)
-        okn = (ncols[0] == "call" and ncols[1].rsplit("::", 1)[-1] == "len" and ncols[3][0] == coll)
-        if not okn:
-            return False, ("the matrix is allocated with `%s` columns but the loop writes one column per element of `%s`: "
-                           "columns may stay uninitialised" % (short(ncols)[:80], short(coll)[:80]))
-        # every path from the Some edge of next() back to the header passes a full write of the bound column
+        lb, tt, itv = nxt
+        if not covers_all_columns(itv, alloc, ncols, fx):
+            return False, ("the loop `%s` may end before all %s columns of the allocation are written: columns may stay uninitialised"
+                           % (short(itv)[:80], short(ncols)[:40]))
         sw = None
         for c in consumers(b, tt["dest"]["l"]):
             if c["kind"] == "discr" and b.blocks[c["block"]]["term"]["k"] == "switch":
                 sw = c["block"]
         if sw is None:
-            return False, "loop test not found"
+            return False, "loop test not found (undetermined)"
         yes, no = variant_edge(b, sw, "Some")
-        if not yes:
-            return False, "loop Some edge not found"
+        exh, _ = variant_edge(b, sw, "None")
+        if not yes or not exh:
+            return False, "loop edges not found (undetermined)"
         body_entry = yes[0][1]
-        wblocks = set()
-        for wb in blocks:
-            wt = b.blocks[wb]["term"]
-            if wt["k"] == "call" and "fn" in wt and wt["fn"]["name"] in FULL_COLUMN_WRITES:
-                recv = ev.operand(env, wt["args"][0], (wb, None))
-                # receiver derives from the loop element
-                if contains(recv, lambda x: x[0] == "elem"):
-                    wblocks.add(wb)
+        wblocks = set(x for x in writes_target_on_all_paths(F, ev, b, env, pred) if x in blocks)
         if not wblocks:
-            return False, "loop body never writes the bound column"
+            return False, "the loop body never writes the bound column"
         r = b.reachable(body_entry, avoid=wblocks)
         if h in r and body_entry != h:
             return False, "a path through the loop body returns to the loop header without writing the column (column left uninitialised)"
-        # exits from inside the body that skip the write must not return the matrix as success
-        return True, "for-loop form (zip(functions, columns)), one column per element, full-column write on every iteration"
+        # the matrix may be returned as a success only after the loop ran to exhaustion
+        r2 = b.reachable(h, avoid_edges=set(exh))
+        bad = [x for x in succ_sites if x in r2]
+        if bad:
+            return False, "the matrix can be returned after leaving the loop early (remaining columns uninitialised)"
+        return True, "for-loop form, one full-column write per iteration, returned only after exhaustion"
     return False, "no recognised initialisation pattern for the uninitialised matrix (undetermined)"
 
 
-def closure_writes_col_on_all_ok_paths(F, ev, cb, cenv):
-    """every path of the closure to an Ok(..) return passes a full write of ('sym','col')"""
-    wblocks = set()
-    for bi, t in cb.calls():
-        if "fn" not in t:
-            continue
-        fn = t["fn"]
-        args = [ev.operand(cenv, a, (bi, None)) for a in t["args"]]
-        key = fn.get("resolved_key") or fn.get("key")
-        if fn["name"] in FULL_COLUMN_WRITES and args and args[0] == ("sym", "col"):
-            wblocks.add(bi)
-        elif key and key in F.bodies and key not in ev.opaque:
-            sub = Env(F.bodies[key], {i + 1: x for i, x in enumerate(args)}, 2)
-            # the local helper must write its target on every path
-            tgt = [i for i, a in enumerate(args) if a == ("sym", "col")]
-            if tgt:
-                hb = F.bodies[key]
-                hw = set()
-                for hbi, ht in hb.calls():
-                    if "fn" in ht and ht["fn"]["name"] in FULL_COLUMN_WRITES:
-                        recv = ev.operand(sub, ht["args"][0], (hbi, None))
-                        if recv == ("sym", "col"):
-                            hw.add(hbi)
-                if hw and hb.must_pass(0, hb.exits(), hw):
-                    wblocks.add(bi)
-    if not wblocks:
-        return False, "the per-column closure never writes its column"
-    ok_returns = []
-    for bi, si, s in cb.stmts():
-        if s["k"] == "assign" and s["place"]["l"] == 0 and s["rv"]["k"] == "agg" and s["rv"].get("variant") in ("Ok", "Some"):
-            ok_returns.append(bi)
-    if not ok_returns:
-        # closure returning () : all exits
-        ok_returns = cb.exits()
-    if cb.must_pass(0, ok_returns, wblocks):
-        return True, ""
-    return False, "a path through the per-column closure reports success without writing the column (uninitialised memory in the Jacobian)"
+def covers_all_columns(it, alloc, ncols, fx):
+    """the iterator visits every column of alloc: the column iteration itself (optionally
+    enumerated), or zipped with a collection whose length is the allocation's column count"""
+    it = fx.base_iter(it)
+    if it[0] != "call":
+        return False
+    last = it[1].rsplit("::", 1)[-1]
+    if last in ("column_iter_mut", "par_column_iter_mut"):
+        from rules_stats2 import base_alloc
+        return base_alloc(it[3][0]) == alloc
+    if last in ("enumerate", "into_iter", "by_ref"):
+        return covers_all_columns(it[3][0], alloc, ncols, fx)
+    if last == "zip":
+        a, c = fx.base_iter(it[3][0]), fx.base_iter(it[3][1])
+        for cols, coll in ((a, c), (c, a)):
+            if covers_all_columns(cols, alloc, ncols, fx):
+                x = coll
+                while x[0] == "call" and x[1].rsplit("::", 1)[-1] in ("iter", "into_iter", "iter_mut", "enumerate"):
+                    x = fx.base_iter(x[3][0])
+                if ncols[0] == "call" and ncols[1].rsplit("::", 1)[-1] == "len" and ncols[3][0] == x:
+                    return True
+                return False
+    return False
 
 
 # --------------------------------------------------------------------------- #
@@ -683,26 +688,41 @@ def rule_sibling(F, ev, R, config, rule="R-SIBLING"):
         ev.fresh_ctx()
         vs = canon(ev.ret_val(Env(bs)))
         vp = canon(ev.ret_val(Env(bp)))
+        if m == "jacobian":
+            # one flavour may use a for loop and the other an iterator pipeline: compare what can be
+            # returned as present (the allocation) — the column computation is compared below
+            vs, vp = ret_signature(vs), ret_signature(vp)
         ok = vs == vp
         R.add(rule, config, bp.key, m + "-value-equal", ok, "" if ok else "return value of parallel %s() differs from the sequential one:\n   seq %s\n   par %s" % (m, short(vs)[:300], short(vp)[:300]), bp.j["span"])
         if m == "jacobian":
-            cs, _ = jacobian_closure_env(F, ev, bs)
-            cp, _ = jacobian_closure_env(F, ev, bp)
-            if len(cs) == 1 and len(cp) == 1:
-                es = [(c, tuple(canon(a) for a in args)) for c, h, args, t, body, bi in effect_calls(ev, cs[0][1])]
-                ep = [(c, tuple(canon(a) for a in args)) for c, h, args, t, body, bi in effect_calls(ev, cp[0][1])]
-                ok = es == ep
-                how = "same operation sequence"
-                if not ok:
-                    # semantic fallback: equal normal forms of everything written and equal model calls
-                    ok = closure_signature(es) == closure_signature(ep)
-                    how = "different code, equal normal forms of the written column and equal model calls"
-                R.add(rule, config, cp[0][0].key, "column-closure-effects-equal", ok,
-                      how if ok else "the per-column closure of the parallel jacobian() computes something different from the sequential one:\n   seq %s\n   par %s" % (
-                          closure_signature(es, True), closure_signature(ep, True)), cp[0][0].j["span"])
-            else:
-                R.bad(rule, config, bp.key, "column-closure-effects-equal", "closures not found", bp.j["span"])
+            try:
+                Ms, ks, vs_, es, effs_s = jacobian_column_write(F, ev, bs)
+                Mp, kp, vp_, ep, effs_p = jacobian_column_write(F, ev, bp)
+                sig_s = effects_signature(effs_s, pretty=False)
+                sig_p = effects_signature(effs_p, pretty=False)
+                ok = sig_s == sig_p and canon(Ms) == canon(Mp) and canon(ks) == canon(kp)
+                R.add(rule, config, bp.key, "column-closure-effects-equal", ok,
+                      "equal normal forms of the written column, equal allocation, index and model calls" if ok else
+                      "the per-column computation of the parallel jacobian() differs from the sequential one:\n   seq %s\n   par %s" % (
+                          effects_signature(effs_s, True), effects_signature(effs_p, True)), bp.j["span"])
+            except AnchorMissing as ex:
+                R.bad(rule, config, bp.key, "column-closure-effects-equal", "%s (undetermined)" % ex, bp.j["span"])
     R.floor(rule, config, 5, "4 methods + column closure")
+
+
+def effects_signature(effs, pretty=False):
+    """(model calls, normal forms of full-column writes) of Effect objects, canonicalised for
+    the seq/par comparison"""
+    import effects as fx
+    N = nfmod.NF()
+    calls = sorted(repr((e.cid, tuple(canon(a) for a in e.args))) for e in effs if e.kind == "call" and e.cid.startswith(TRAIT_MODEL))
+    writes = []
+    for M, k, val, e in fx.column_writes(effs):
+        n = N.nf(canon(val))
+        writes.append((repr(canon(M)), repr(canon(k)), nfmod.show(n, short) if pretty else repr(sorted(n.items(), key=repr))))
+    if pretty:
+        return "writes %s; model calls %d" % ([w[2][:200] for w in writes], len(calls))
+    return (tuple(calls), tuple(sorted(writes)))
 
 
 def closure_signature(effects, pretty=False):
@@ -717,6 +737,14 @@ def closure_signature(effects, pretty=False):
     if pretty:
         return "writes %s; model calls %d" % ([w[1][:200] for w in writes], len(calls))
     return (tuple(calls), tuple(sorted(writes)))
+
+
+def ret_signature(v):
+    from rules_stats2 import base_alloc
+    alts = v[1] if v[0] == "phi" else (v,)
+    present = sorted(set(repr(base_alloc(a[1])) for a in alts if a[0] == "opt"))
+    absent = any(is_absent_value(a) for a in alts)
+    return (tuple(present), absent)
 
 
 RAYON_OK = {"par_column_iter_mut", "enumerate", "map", "collect"}
